@@ -1,5 +1,6 @@
 import FastraceModel.Lemmas.Assoc
 import FastraceModel.Lemmas.Cycle
+import FastraceModel.Lemmas.ProvExec
 
 /-!
 # C05 — unsampled traces are never delivered and the decision propagates
@@ -11,6 +12,15 @@ import FastraceModel.Lemmas.Cycle
   that reaches the collector mentions an unsampled item, and a span with sampled and
   unsampled parents is submitted for exactly its sampled parents;
 * the collector only emits records under the `(trace, parent)` of submitted items (C02 §3).
+
+These step facts are composed into one **whole-program theorem**
+(`C05_only_sampled_roots_delivered`): for every program over the modelled API (all operations of
+`Model/Api.lean`: spans, multi-parent spans, local scopes, collectors, adapters, thread exit,
+overload, stepped collector drains — any interleaving of any number of threads) every record of
+every report carries a trace id that was supplied to a **sampled** `root` operation of that
+program.  The proof is an invariant (`Prov`, `Lemmas/Prov*.lean`) over all places that can hold a
+token or a command — span handles, adapters, span lines, rings, overflow lists, the drain buffer,
+buffered collections — preserved by every operation.
 -/
 namespace Fastrace
 
@@ -89,6 +99,47 @@ theorem C05_records_only_for_submitted (conv : Nat → Nat) (col : Collection) :
     obtain ⟨raw, _, hk⟩ := hk
     cases hk2 : raw.kind <;> simp only [hk2] at hk <;> simp at hk
     subst hk; rfl
+
+/-- **whatever the program, only sampled roots' traces reach the reporter**: every record of
+    every report returned by any operation of any program carries a trace id supplied to a
+    `root … sampled=true` operation of that program -/
+theorem C05_only_sampled_roots_delivered (p : Program) :
+    ∀ o ∈ (run Sys.init p).2, ∀ rs, o = .report (some rs) → ∀ r ∈ rs, r.traceId ∈ sampledRootTraces p := by
+  intro o ho rs hrs
+  refine run_prov (sampledRootTraces p) p Sys.init ?_ (Prov.init _) o ho rs hrs
+  intro x hx tr htr
+  exact List.mem_flatMap.mpr ⟨x, hx, htr⟩
+
+/-- **an unsampled trace produces no reporter output at all**: if no sampled root of the
+    program uses trace id `tr` (the trace's roots are all created with `sampled = false`), no
+    report of the program ever contains a record of trace `tr` — not the root, no descendant
+    on any thread, no local span, no attached set, no copy of a multi-parent span -/
+theorem C05_unsampled_trace_silent (p : Program) (tr : Nat)
+    (h : ∀ x ∈ p, ∀ v n sp, x.2 ≠ .root v n tr sp true) :
+    ∀ o ∈ (run Sys.init p).2, ∀ rs, o = .report (some rs) → ∀ r ∈ rs, r.traceId ≠ tr := by
+  intro o ho rs hrs r hr e
+  have := C05_only_sampled_roots_delivered p o ho rs hrs r hr
+  rw [e] at this
+  obtain ⟨x, hx, hin⟩ := List.mem_flatMap.mp this
+  cases hop : x.2 with
+  | root v n t2 sp b =>
+    rw [hop] at hin
+    cases b with
+    | true =>
+      simp only [opTraces, List.mem_singleton] at hin
+      subst hin
+      exact h x hx v n sp hop
+    | false => simp [opTraces] at hin
+  | _ => rw [hop] at hin; simp [opTraces] at hin
+
+/-! non-vacuity of the whole-program theorems: a program with a sampled trace (7) and an
+unsampled one (9, with a child); the one report holds trace 7 only -/
+def c05Prog : Program :=
+  [(0, .spawn), (0, .setReporter false), (0, .root "a" "ra" 7 0 true), (0, .root "b" "rb" 9 0 false),
+   (0, .child1 "c" "cb" "b"), (0, .drop "c"), (0, .drop "b"), (0, .drop "a"), (0, .cycle)]
+example : ((run Sys.init c05Prog).2.filterMap fun | .report (some rs) => some (rs.map (·.traceId)) | _ => none)
+    = [[7]] := by decide
+example : sampledRootTraces c05Prog = [7] := by decide
 
 /-! non-vacuity: a mixed parent set keeps its sampled parent only -/
 example : ([⟨1, 2, 0, false, true⟩, ⟨3, 4, Consts.notSampledCollectId, false, false⟩] : Token).filter (·.isSampled)
